@@ -63,6 +63,9 @@ type capture struct {
 	envs  map[string][]string // env id -> published environment states, in order
 	runs  map[string][]RunEv
 	tasks map[string]int // task id -> number of task events published (one per applied state / status update)
+	// onRole, when set, runs inside the core's goroutine that publishes a role event (a role whose
+	// cached state or status changed writes it after the store and before it climbs to its parent)
+	onRole func(envId, rolePath, state, status string)
 }
 
 func (c *capture) WriteEvent(e interface{}) {
@@ -71,6 +74,13 @@ func (c *capture) WriteEvent(e interface{}) {
 		c.mu.Lock()
 		c.envs[ev.EnvironmentId] = append(c.envs[ev.EnvironmentId], ev.State)
 		c.mu.Unlock()
+	case *evpb.Ev_RoleEvent:
+		c.mu.Lock()
+		f := c.onRole
+		c.mu.Unlock()
+		if f != nil {
+			f(ev.EnvironmentId, ev.RolePath, ev.State, ev.Status)
+		}
 	case *evpb.Ev_TaskEvent:
 		c.mu.Lock()
 		c.tasks[ev.Taskid]++
@@ -100,6 +110,9 @@ type World struct {
 	// them for workflows with nested aggregator roles
 	YAMLOf func(name string, tasks []Task, launch []string, calls []Call, deployTimeout string) string
 	PathOf func(name string, i int) string
+	// BeforeReport, when set, is called by the director of Create right before it lets the launched
+	// task of position idx report in (how: run | fail | ...), in the order the tasks report
+	BeforeReport func(e *Env, idx int, tid string, how string)
 }
 
 type taskRef struct {
@@ -180,6 +193,15 @@ func NewWorld(workDir string, hosts int, verbose bool) (*World, error) {
 		}
 	}
 	return w, nil
+}
+
+// OnRoleEvent installs (nil: removes) a callback run synchronously inside the core's goroutine that
+// publishes a role event: after the role stored its new state / status, before it updates its parent.
+func (w *World) OnRoleEvent(f func(envId, rolePath, state, status string)) {
+	the.VerifC02SetEventWriter(topic.Role, w.cap) // (h03 installs a writer of its own for this topic)
+	w.cap.mu.Lock()
+	w.cap.onRole = f
+	w.cap.mu.Unlock()
 }
 
 // OnProbe registers a callback run inside the probe with this id (nil removes it).
@@ -639,6 +661,15 @@ func (w *World) Create(name string, tasks []Task, launch []string, cfg []string,
 					how = launch[it.idx]
 				}
 				e.note(tCreate, "t%d in roster (%s), %s", it.idx, it.tid, how)
+				// acquireTasks writes the roster first and gives the roles their tasks right after: a task
+				// that reported in between (no real executor is that fast) would make the role ACTIVE
+				// while GetActiveTasks does not find its task yet
+				if !simcore.WaitFor(2*time.Second, func() bool { return w.roleHasTask(e.Id, e.rolePath(it.idx)) || stopped() }) {
+					e.note(tCreate, "t%d: the role never got its task", it.idx)
+				}
+				if w.BeforeReport != nil {
+					w.BeforeReport(e, it.idx, it.tid, how)
+				}
 				switch how {
 				case "run":
 					if !w.Sim.C02MarkRunning(it.tid) {
@@ -687,6 +718,31 @@ func (w *World) Create(name string, tasks []Task, launch []string, cfg []string,
 	<-dirDone
 	e.E, _ = w.Sim.Envman.Environment(e.Id)
 	return e, res
+}
+
+func findRole(r workflow.Role, path string) workflow.Role {
+	if r == nil {
+		return nil
+	}
+	if r.GetPath() == path {
+		return r
+	}
+	for _, c := range r.GetRoles() {
+		if x := findRole(c, path); x != nil {
+			return x
+		}
+	}
+	return nil
+}
+
+// roleHasTask: the role with this path in the environment's workflow has been given its task.
+func (w *World) roleHasTask(envId uid.ID, path string) bool {
+	env, err := w.Sim.Envman.Environment(envId)
+	if err != nil || env == nil || env.Workflow() == nil {
+		return false
+	}
+	r := findRole(env.Workflow(), path)
+	return r != nil && len(r.GetTasks()) > 0
 }
 
 func (w *World) taskStatus(tid string) string {
@@ -830,4 +886,14 @@ func (w *World) RoleViewByPath(envId uid.ID, rolePath string) [2]int {
 		}
 	})
 	return out
+}
+
+// EventCapture is the writer NewWorld installed for the environment and run topics; a harness that
+// wraps it (to act at the instant an event is published) must forward every event to it.
+func (w *World) EventCapture() interface {
+	WriteEvent(e interface{})
+	WriteEventWithTimestamp(e interface{}, t time.Time)
+	Close()
+} {
+	return w.cap
 }
